@@ -75,6 +75,13 @@ type CreditTransfer struct {
 	Branch *org.Address `json:"branch,omitempty" jsonschema:"title=Branch"`
 }
 
+// Validate ensures the branch address of the credit transfer is valid.
+func (ct *CreditTransfer) Validate() error {
+	return validation.ValidateStruct(ct,
+		validation.Field(&ct.Branch),
+	)
+}
+
 // Online provides the details required to make a payment online using a website
 type Online struct {
 	// Key identifier for this online payment method.
